@@ -164,3 +164,14 @@ claim("C12", E1,
       "jaxpr (incl. gradient jaxprs) -> SMT with forward-pass generalisation; QF_NRA + axiomatised exp/sqrt",
       "DESIGN.md §3 C12")
 NOT_APPLICABLE.pop("C12", None)
+
+claim("C05", E1,
+      "F-UPD: 24 routines (train_step_with_loss with the 8 critic losses, ddpg/sac/td7 actor updates, entropy-coefficient update, "
+      "td7_update_critic, update_sale, MR.Q update_critic_and_policy, update_model_based_encoder, update_ppo, train_value_function, "
+      "train_policy_reinforce/actor_critic/a2c, plus loss evaluation and acting as no-ops) are traced with ALL modules and optimizers "
+      "as one symbolic pytree: every leaf of a component the routine is not documented to train must equal its input (one obligation "
+      "per leaf, for all parameter values and batches); trained leaves must equal in - lr*grad(documented loss) under SGD.",
+      REAL + " Batch 2, dims 1-2, hidden [2], one gradient step; optimizer state of the trained component may change. PETS train_epoch is checked under C17.",
+      "jaxpr -> SMT; per-leaf equality obligations (mostly syntactic after scan/jit inlining) + gradient-step equation",
+      "DESIGN.md §3 C05, §2 F-UPD")
+NOT_APPLICABLE.pop("C05", None)
